@@ -3,7 +3,7 @@ import types
 import vlib
 
 ID = 'C05'
-LEAN_MODULES = ['TboxModel.C05.Props', 'TboxModel.C05.ReplayProofs']
+LEAN_MODULES = ['TboxModel.C05.Props', 'TboxModel.C05.ReplayProofs', 'TboxModel.C05.PropsLife', 'TboxModel.C05.CabProofs']
 EXE = 'c05'
 MODE = 'trace'
 THEOREMS = ['Tbox.C05.C05_waiting_at_cleanup_never_runs', 'Tbox.C05.C05_cancel_running_noop', 'Tbox.C05.C05_execute_after_cleanup',
@@ -18,7 +18,13 @@ THEOREMS = ['Tbox.C05.C05_waiting_at_cleanup_never_runs', 'Tbox.C05.C05_cancel_r
             'Tbox.C05.C05_no_deadlock_counterexample', 'Tbox.C05.C05_no_null_join_counterexample',
             'Tbox.C05.C05_prio_width', 'Tbox.C05.C05_prio_add_before_clamp_counterexample', 'Tbox.C05.C05_initialize_width',
             'Tbox.C05.C05_spawn_failure_reported', 'Tbox.C05.C05_spawn_failure_counterexample',
-            'Tbox.C05.Replay.C05_replay_sound', 'Tbox.C05.Replay.C05_replay_steps_sound_partial']
+            'Tbox.C05.Replay.C05_replay_sound', 'Tbox.C05.Replay.C05_replay_steps_sound',
+            # round 6: lifecycles, stale / forged tokens, the cabinet lock-step
+            'Tbox.C05.C05_cleanup_resets', 'Tbox.C05.C05_stale_idle_counterexample', 'Tbox.C05.C05_lifecycles_safe',
+            'Tbox.C05.C05_lifecycles_cleanup', 'Tbox.C05.C05_doing_only_held', 'Tbox.C05.C05_unissued_token', 'Tbox.C05.C05_stale_token_dead',
+            'Tbox.C05.Cab.C05_cabinet_lockstep', 'Tbox.C05.Cab.C05_status_cabinet_eq_deques', 'Tbox.C05.Cab.C05_cancel_answers',
+            'Tbox.C05.Cab.C05_pop_resolves', 'Tbox.C05.Cab.C05_forged_token', 'Tbox.C05.Cab.C05_cleanup_empties',
+            'Tbox.C05.Cab.C05_withdraw_restores', 'Tbox.C05.Cab.C05_cabinet_desync_counterexample']
 SOURCES = ['modules/eventx/thread_pool.cpp', 'modules/eventx/work_thread.cpp'] + vlib.EVENT_SOURCES + vlib.BASE_SOURCES
 import os
 FLAVOUR = os.environ.get('C05_FLAVOUR', 'tsan')     # tsan in both tiers (fast enough); override only for experiments
@@ -38,6 +44,10 @@ TRUSTED = ['model lean/TboxModel/C05/Model.lean is hand-written from thread_pool
            'the driver maps each event to model steps, checks each with `valid`, lets the MODEL decide what the section does (exit / wait / which task is '
            'popped / spawn or not / status, cancel, snapshot answers) and requires the next event of that thread to agree; the reconstructed step list is '
            're-run with `exec`; a failed reconstruction is a model-internal divergence, a wrong pick against the exactly known queue is property-level',
+           'round 6: the replay runs across lifecycles (`execL`: an accepted initialize() after cleanup() is a `validL`-checked step; whole-`replay` soundness is the '
+           'theorem C05_replay_steps_sound) and carries the token layer of Cab.lean (deques + cabinet + running set as the code has them) in lock-step with '
+           'the abstract queue: after every replayed step sizes per level, cabinet size, running-set size and the cancel / status / pop answers of the two '
+           'layers are compared (model-internal class); the cabinet itself is trusted through the contract C08 proves (finite map, ids never reissued)',
            'std::mutex gives atomic critical sections; condition_variable::notify_all wakes every current waiter; spurious wake-ups allowed',
            'one atomic counter linearises the recorded events (stamps inside a critical section are ordered like the sections); the stamps of the step '
            'log are taken with memory_order_relaxed so that the log adds no happens-before edge ThreadSanitizer would honour; pthread_mutex_lock / '
@@ -46,7 +56,8 @@ TRUSTED = ['model lean/TboxModel/C05/Model.lean is hand-written from thread_pool
 ASSUMPTIONS = ['no API call overlaps cleanup() (the property quantifies over calls from the loop thread; execute/cancel/getTaskStatus may also come from task bodies '
                'and callbacks, cleanup() may not be called from a task body: a worker would join itself - std::system_error(EDEADLK) - outside the quantifier)',
                'task bodies terminate; fair scheduling of worker threads (needed for "cleanup terminates" on top of deadlock freedom)',
-               'no re-initialize after cleanup inside one case', 'cabinet ids do not wrap (2^32 tasks)',
+               'cabinet ids do not wrap (2^64 tasks); the cabinet itself is used through its contract (finite map, ids never reissued: the C08 theorems)',
+               'a second initialize() whose thread creation fails is driven on the real code only (no model step)',
                'a WorkThread constructed without a loop delivers a completion callback only when execute() is given a loop (no loop, no loop thread: '
                'the callback is dropped by the code and by the model alike)']
 RULE_OLD = ('cases = (pool min/max in {0..4}x{1..6} incl. invalid, or WorkThread) x 1-200 tasks (priorities -3..3, bodies 0-3 ms, callbacks) interleaved '
@@ -64,7 +75,12 @@ RULE = ('cases = (pool min/max in {0..4}x{1..6} incl. invalid, or WorkThread) x 
         'clamp and of 2^15/2^16/2^31 (INT_MIN..INT_MAX) behind gates, initialize() with negative / SSIZE_MIN / SSIZE_MAX arguments and the default (0, SSIZE_MAX), '
         'initialize() on a ready pool, cleanup() twice, every execute() overload (rvalue / const-reference, WorkThread with and without explicit loop, WorkThread '
         'without default loop), pthread_create failing with EAGAIN at a chosen creation inside initialize() or execute(), bulk submissions of 3*10^4..10^5 '
-        'anonymous tasks (history-level checks only); distinct = distinct op text')
+        'anonymous tasks (history-level checks only); round 6 families: several lifecycles of one object (cleanup, initialize again with another / an invalid '
+        'configuration, up to three lifecycles; each finished lifecycle is validated as a history of its own, the step replay runs across them; tokens of the '
+        'previous lifecycle queried and cancelled in the next), forged tokens derived from a live token (same id at another position, position + 2^32, id + 10^6, '
+        'id 2^64-1, null id at a live position) and tokens of ANOTHER ThreadPool / WorkThread that issued more ids (must be not-found / 1, nothing may change), '
+        'cancel / getTaskStatus of the task a worker has just popped and not yet started (holdpick), chains of tasks whose body and completion callback are ONE '
+        'std::function object resubmitted from inside its own callback; distinct = distinct op text')
 
 
 BOUNDARY_PRIOS = [-2147483648, -2147483647, -2147483646, -65537, -65536, -32769, -32768, -101, -3, -2, -1, 0, 1, 2, 3, 101, 32767, 32768,
@@ -127,10 +143,130 @@ def gen_failspawn(rng, tier):
     return ops
 
 
+def gen_lifecycles(rng, tier):
+    """several lifecycles of ONE pool object: cleanup(), initialize() again (another, the same or an invalid configuration),
+    stale tokens of the previous lifecycle, spawn / exit decisions at quiescent points of the new lifecycle (a counter that
+    survived cleanup() shows there)"""
+    def cfgpair():
+        r = rng.random()
+        if r < 0.3: mx = rng.randrange(1, 5); return mx, mx
+        if r < 0.6: return 0, rng.randrange(1, 5)
+        mx = rng.randrange(1, 6); return rng.randrange(0, min(mx, 3) + 1), mx
+    mn, mx = cfgpair()
+    ops = ['cfg pool %d %d %d %d' % (mn, mx, rng.randrange(1 << 30), rng.choice([0, 0, 150, 300, 600]))]
+    nlife = rng.choice([2, 2, 2, 3])
+    prev_n = 0
+    for life in range(nlife):
+        n = 0
+        shape = rng.random()
+        if shape < 0.35:
+            # everybody idle (or gone) when cleanup() comes
+            for _ in range(rng.choice([0, 1, 2, 4, 6])):
+                ops.append('exec %d %d %d' % (rng.choice([-1, 0, 0, 1]), rng.randrange(2), rng.choice([0, 0, 300, 1000]))); n += 1
+            ops.append(rng.choice(['settle', 'drain', 'settle']))
+            if rng.random() < 0.4: ops.append('snap')
+            if rng.random() < 0.3: ops.append('sleep %d' % rng.choice([500, 3000, 6000]))
+        elif shape < 0.7:
+            # workers busy, a backlog waiting: dropped tasks, tokens that die at cleanup
+            for _ in range(max(1, min(mx, 3))): ops.append('exec 0 %d %d' % (rng.randrange(2), rng.choice([3000, 8000, 12000]))); n += 1
+            for _ in range(rng.choice([1, 2, 4, 7])):
+                ops.append('exec %d %d 0' % (rng.choice([-2, -1, 0, 0, 1, 2]), rng.randrange(2))); n += 1
+            if rng.random() < 0.5: ops.append('cancel %d' % rng.randrange(n))
+            if rng.random() < 0.5: ops.append('stat %d' % rng.randrange(n))
+            if rng.random() < 0.3: ops.append('snap')
+        else:
+            for _ in range(rng.choice([2, 4, 8])):
+                ops.append('exec %d %d %d' % (rng.choice([-1, 0, 0, 1]), rng.randrange(2), rng.choice([0, 100, 500]))); n += 1
+                if rng.random() < 0.3: ops.append(rng.choice(['stat %d' % rng.randrange(n), 'cancel %d' % rng.randrange(n), 'snap']))
+            if rng.random() < 0.6: ops.append('settle')
+        if life > 0 and prev_n and rng.random() < 0.5:
+            ops.append(rng.choice(['ostat %d', 'ocancel %d']) % rng.randrange(prev_n))
+        ops.append('cleanup')
+        if rng.random() < 0.3 and n: ops.append(rng.choice(['stat %d', 'cancel %d']) % rng.randrange(n))
+        if life == nlife - 1: break
+        if rng.random() < 0.12:
+            ops.append('relife %d %d' % rng.choice([(3, 2), (0, 0), (-1, 2), (1, 0), (-9223372036854775808, 5), (2, -9223372036854775808), (9223372036854775807, 1)]))      # refused: the object stays unusable
+            ops += ['exec 0 0 0', 'snap'] + (['ostat 0'] if n else [])
+            mn, mx = cfgpair()
+            ops.append('relife %d %d' % (mn, mx))
+            prev_n = 0
+        else:
+            mn, mx = cfgpair()
+            ops.append('relife %d %d' % (mn, mx))
+            prev_n = n
+        # the very first thing the new lifecycle does is observed at worker level: quiescent snapshot, spawn decision
+        if rng.random() < 0.7: ops.append('settle')
+        if rng.random() < 0.5: ops.append('snap')
+        if prev_n:
+            for _ in range(rng.choice([1, 2, 3])):
+                ops.append(rng.choice(['ostat %d', 'ocancel %d']) % rng.randrange(prev_n))
+    ops.append('fin')
+    return ops
+
+
+def gen_tokens(rng, tier):
+    """tokens this object never issued (lesson g: inputs derived from the cached state — here from live tokens), the window
+    between a worker's pop and the start of the body, one function object as body AND callback resubmitted from its own callback"""
+    r = rng.random()
+    kind = 'pool' if rng.random() < 0.8 else 'wt'
+    if r < 0.25:
+        # holdpick: an idle pool, the next pick is held after its critical section; cancel / status of that very task
+        mn = rng.choice([1, 1, 2]); mx = mn + rng.choice([0, 0, 1])
+        ops = ['cfg %s %d %d %d 0' % (kind, mn, mx, rng.randrange(1 << 30)), 'settle']
+        n = 0
+        for _ in range(rng.choice([1, 2, 3])):
+            ops.append('holdpick %d' % rng.choice([2000, 4000, 8000]))
+            ops.append('exec %d %d %d' % (rng.choice([-1, 0, 1]), rng.randrange(2), rng.choice([0, 0, 500])))
+            k = n; n += 1
+            for _ in range(rng.choice([1, 2, 3])): ops.append(rng.choice(['cancel %d', 'stat %d', 'cancel %d']) % k)
+            if rng.random() < 0.4: ops.append('forge %s %d' % (rng.choice(['pos', 'idbig', 'null']), k))
+            ops.append(rng.choice(['settle', 'drain']))
+        ops += ['cleanup', 'fin']
+        return ops
+    if r < 0.45:
+        # the same std::function object as body and callback, resubmitted from inside its own completion callback
+        mn = rng.choice([0, 1, 2]); mx = max(1, mn) + rng.choice([0, 1, 2])
+        ops = ['cfg %s %d %d %d %d' % (kind, mn, mx, rng.randrange(1 << 30), rng.choice([0, 0, 300]))]
+        n = 0
+        for _ in range(rng.choice([1, 2, 4])):
+            sc = ['R%d' % rng.randrange(1, 5)]
+            if rng.random() < 0.4: sc.append(rng.choice(['S', 'C', 'x0:1:0']))
+            if rng.random() < 0.3: sc.insert(0, 'x0:0:0')
+            ops.append('execs %d 1 %d - %s' % (rng.choice([-1, 0, 0, 1]), rng.choice([0, 200, 1000]), ','.join(sc))); n += 1
+            if rng.random() < 0.4: ops.append('exec 0 %d 0' % rng.randrange(2)); n += 1
+            if rng.random() < 0.3: ops.append('stat %d' % rng.randrange(n))
+        ops += [rng.choice(['drain', 'settle']), 'sleep 2000', rng.choice(['settle', 'drain'])]
+        if kind == 'pool' and rng.random() < 0.5: ops.append('snap')
+        ops += ['cleanup', 'fin']
+        return ops
+    # forged / foreign tokens against waiting, running and finished tasks
+    mn = rng.choice([1, 1, 2, 0]); mx = max(1, mn) + rng.choice([0, 0, 1])
+    ops = ['cfg %s %d %d %d %d' % (kind, mn, mx, rng.randrange(1 << 30), rng.choice([0, 0, 300]))]
+    ng = 1 if kind != 'pool' else mx
+    for _ in range(ng): ops.append('exec 0 %d %d' % (rng.randrange(2), rng.choice([8000, 12000, 20000])))
+    nb = rng.choice([1, 2, 4, 6])
+    for _ in range(nb): ops.append('exec %d %d 0' % (rng.choice([-1, 0, 0, 1]), rng.randrange(2)))
+    tot = ng + nb
+    for _ in range(rng.choice([2, 3, 5])):
+        q = rng.random()
+        if q < 0.7: ops.append('forge %s %d' % (rng.choice(['pos', 'posbig', 'idbig', 'idmax', 'null']), rng.randrange(tot)))
+        else: ops.append('forge %s 0' % rng.choice(['wt', 'pool']))
+        if rng.random() < 0.4: ops.append(rng.choice(['stat %d' % rng.randrange(tot), 'cancel %d' % rng.randrange(ng, tot)] + (['snap'] if kind == 'pool' else [])))
+    ops.append(rng.choice(['drain', 'settle']))
+    if kind == 'pool': ops.append('snap')
+    ops.append('forge %s %d' % (rng.choice(['pos', 'idbig', 'null']), rng.randrange(tot)))
+    ops.append('cleanup')
+    if kind == 'pool' and rng.random() < 0.6: ops.append('forge %s %d' % (rng.choice(['pos', 'idbig', 'null']), rng.randrange(tot)))
+    ops.append('fin')
+    return ops
+
+
 def gen_case(rng, tier):
     r0 = rng.random()
     if r0 < 0.10: return gen_boundary(rng, tier)
     if r0 < 0.16: return gen_failspawn(rng, tier)
+    if r0 < 0.27: return gen_lifecycles(rng, tier)
+    if r0 < 0.35: return gen_tokens(rng, tier)
     ops = []
     kind = 'wt' if rng.random() < 0.15 else 'pool'
     if kind == 'wt' and rng.random() < 0.3: kind = 'wt0'
@@ -333,6 +469,24 @@ def gen(rng, tier):
     yield ['cfg pool 1 4 59 0', 'bulk 100000 -2147483648', 'snap', 'drain', 'snap', 'cleanup', 'fin']
     yield ['cfg wt 0 0 60 0', 'exec 0 1 20000', 'bulk 60000 0', 'exec 0 1 0', 'stat 1', 'destroy', 'fin']
     yield ['cfg pool 0 3 61 0', 'bulk 30000 2', 'bulk 5 0', 'settle', 'cleanup', 'bulk 10 0', 'fin']
+    # round 6 directed: lifecycles, stale / forged / foreign tokens, the pick window, one function object as body and callback
+    yield ['cfg pool 2 2 71 0', 'exec 0 1 300', 'exec 0 0 0', 'settle', 'cleanup', 'relife 0 2', 'settle', 'snap', 'exec 0 1 300', 'ostat 0', 'ocancel 1',
+           'settle', 'snap', 'exec 0 0 0', 'exec 1 0 0', 'drain', 'cleanup', 'relife 1 1', 'ostat 0', 'exec 0 1 0', 'settle', 'cleanup', 'fin']
+    yield ['cfg pool 1 1 72 0', 'exec 0 0 12000', 'exec 0 1 0', 'exec -1 0 0', 'cleanup', 'relife 3 3', 'snap', 'ostat 1', 'ocancel 2', 'ostat 0',
+           'exec 0 1 0', 'exec 0 0 0', 'stat 0', 'drain', 'ocancel 1', 'cleanup', 'fin']
+    yield ['cfg pool 0 3 73 300', 'exec 0 0 300', 'exec 0 0 300', 'exec 0 0 300', 'drain', 'sleep 3000', 'cleanup', 'relife 3 2', 'exec 0 0 0', 'snap',
+           'relife 0 1', 'settle', 'exec 0 1 100', 'settle', 'exec 0 1 100', 'settle', 'cleanup', 'fin']
+    yield ['cfg pool 1 2 74 0', 'exec 0 0 15000', 'exec 0 0 15000', 'exec 0 1 0', 'exec 1 0 0', 'forge pos 2', 'forge posbig 3', 'forge idbig 0',
+           'forge idmax 2', 'forge null 3', 'forge wt 0', 'forge pool 0', 'snap', 'stat 2', 'stat 0', 'drain', 'forge pos 0', 'cleanup', 'forge idbig 1', 'fin']
+    yield ['cfg wt 0 0 75 0', 'exec 0 1 15000', 'exec 0 1 0', 'exec 0 0 0', 'forge pool 0', 'forge wt 0', 'forge pos 1', 'forge null 2', 'forge idbig 0',
+           'stat 1', 'cancel 2', 'drain', 'cleanup', 'forge pos 0', 'fin']
+    yield ['cfg pool 1 1 76 0', 'settle', 'holdpick 6000', 'exec 0 1 0', 'cancel 0', 'stat 0', 'settle', 'holdpick 6000', 'exec 0 0 500', 'stat 1',
+           'cancel 1', 'forge pos 1', 'drain', 'cleanup', 'fin']
+    yield ['cfg pool 1 2 77 0', 'execs 0 1 0 - R4', 'exec 0 1 0', 'execs 0 1 200 - x0:0:0,R2,S', 'drain', 'sleep 3000', 'settle', 'snap', 'cleanup', 'fin']
+    yield ['cfg wt 0 0 78 0', 'execs 0 1 0 - R3', 'exec 0 0 0', 'drain', 'sleep 2000', 'settle', 'cleanup', 'fin']
+    yield ['cfg wt0 0 0 79 0', 'execs 0 1 0 - R3', 'relife 1 1', 'ostat 0', 'forge frob 0', 'forge pos 9', 'holdpick 0', 'cfg pool 1 1 1 0', 'cleanup', 'fin']
+    yield ['cfg pool 1 1 80 0', 'relife 1 1', 'ostat 0', 'exec 0 0 0', 'cleanup', 'relife 1 x', 'relife 65 70', 'relife 1 1', 'ostat 0', 'ostat 1', 'forge wt 1',
+           'cleanup', 'fin', 'relife 1 1']
     for _ in range(n):
         yield gen_case(rng, tier)
 
@@ -349,7 +503,7 @@ def nontrivial(ops, model_lines):
     if 'ran' not in tags: return None
     return 1 if any(t in tags for t in ('stat-w', 'stat-e', 'cancel-0', 'cancel-2', 'multi-worker', 'order-checked', 'spawn-checked-0',
                                        'spawn-checked-1', 'exit-rule-checked', 'offloop', 'nested-exec', 'worker-query', 'worker-cancel', 'cleanup-cs', 'pick-replayed',
-                                       'answer-replayed', 'spawn-failed', 'bulk')) else None
+                                       'answer-replayed', 'spawn-failed', 'bulk', 'lifecycles-replayed', 'stale-token', 'forged-token', 'foreign-token')) else None
 
 
 def fingerprint(ops, d):
@@ -360,7 +514,8 @@ def fingerprint(ops, d):
                     ('drain:', 'task-never-executed'), ('settle:', 'task-never-executed'), ('DEADLOCK', 'cleanup-deadlock'), ('NOT FOUND', 'status-not-found-then-runs'), ('cancellable', 'waiting-after-start'),
                     ('tsan', 'tsan-data-race'), ('signal6', 'abort'), ('signal11', 'segv'), ('pick order', 'pick-order'),
                     ('more than once', 'twice'), ('exceed the maximum', 'max-workers'), ('timeout', 'cleanup-deadlock'),
-                    ('cancel reported success', 'cancelled-ran'), ('callback', 'callback')):
+                    ('cancel reported success', 'cancelled-ran'), ('stale token', 'stale-token-alias'), ('never issued', 'forged-token-resolves'),
+                    ('after cleanup()', 'second-lifecycle'), ('callback', 'callback')):
         if key in txt: return fp
     import hashlib
     return hashlib.sha1(txt.encode()).hexdigest()[:12]
